@@ -402,6 +402,15 @@ def run(tier, v):
     # CLI: skeleton edits (quick: first 4 skeletons) and the corpus unmodified
     sk_files = sorted({"".join(e).encode("utf-8") for sk in (SKELETONS if tier == "thorough" else SKELETONS[:5] + SKELETONS[12:13]) for e in edits1(sk)})
     jobs = [(sk_files[k:k + step], st, os.path.join(work, "clisk%d_%d" % (st, k)), "s") for st in (False, True) for k in range(0, len(sk_files), step)]
+    # what follows a reported position on its line: k ASCII bytes and then a run of multi-byte characters, for every k (anything that
+    # cuts or pads the rest of the line at a fixed width must do so on a character boundary), also for unusable `ref` values
+    excerpt = []
+    for ch in ("é", "名", "😀"):
+        for k in range(0, 72):
+            excerpt.append(('fn f() { info!("' + "a" * k + ch * 40 + '"); }\n').encode("utf-8"))
+            excerpt.append(('fn f() { info!(ref = ' + "v" * (k + 1) + '; "' + ch * 40 + '"); warn!("x' + ch * 3 + '"); }\n').encode("utf-8"))
+    jobs.append((excerpt, False, os.path.join(work, "cliex0"), "e"))
+    jobs.append((excerpt, True, os.path.join(work, "cliex1"), "e"))
     jobs.append(([b for _, b in cfiles], False, os.path.join(work, "clicorp0"), "c"))
     jobs.append(([b for _, b in cfiles], True, os.path.join(work, "clicorp1"), "c"))
     n2 = 0
@@ -413,7 +422,8 @@ def run(tier, v):
                         replay_files={"proj/src/case.rs": b, "proj/Breadlog.yaml": cli.config_yaml("./src", use_cache=False)},
                         replay_cmd="/verif/.build/repo/release/breadlog -c proj/Breadlog.yaml %s; echo exit=$?" % ("--check" if mode == "check" else ""))
     v.count(n2 * 2)
-    v.subspace("single-token edits of skeleton statements and the unmodified corpus files through --check and edit x style", n2 * 2, exhaustive=True)
+    v.subspace("single-token edits of skeleton statements, the unmodified corpus files, and the excerpt-alignment family (k = 0..71 ASCII bytes "
+               "then 40 two-/three-/four-byte characters after a reported position) through --check and edit x style", n2 * 2, exhaustive=True)
     # (iv) invalid UTF-8, (v) sizes
     utf8_family(v, work)
     size_family(v, work, tier, pool)
